@@ -9,9 +9,25 @@
 #ifndef HDR
 #define HDR 0
 #endif
+#ifdef REPL
+#define MAXSIZE 48
+#else
 #define MAXSIZE (N * 10 + 9 + 2)
+#endif
 void harness(void) {
+#ifdef REPL
+    /* semi-concrete boundary instance: REPL copies of a literal value followed by N - REPL copies of a symbolic one,
+     * so that run lengths reach the tagged-varint boundaries (240/241, 255/256, 2287/2288) with two symbolic values */
+    /* (the repeated value is a literal so that the run structure stays concrete; the trailing value is symbolic) */
+    const uint64_t a = 5;
+    VP_IN(uint64_t, b);
+    VP_ASSUME(a != b);
+    uint64_t v[N];
+    for (unsigned i = 0; i < N; i++)
+        v[i] = i < REPL ? a : b;
+#else
     VP_IN_ARR(uint64_t, v, N);
+#endif
     VP_IN_ARR(uint8_t, init, MAXSIZE);
     VP_IN_ARR(uint8_t, junk, MAXSIZE);
     VP_IN(uint32_t, k);
